@@ -15,7 +15,7 @@ RULE = ("seeded interleavings, in 1-3 sessions, of Init / single-part / Update /
         "the block size, announced sizes null / 0 / reported-1 / exactly the reported length / larger, foreign *Init and foreign continuation calls thrown in, and continuation calls before Init and after completion. "
         "A per-session automaton (active family or none, bytes fed and returned) judges every return code the statement names, every reported length against the statement's bounds, every buffer against its canary, "
         "and each completed multi-part result against the single-part result of the same bytes computed in another session. Distinct+non-trivial: (family, mechanism, step kind, buffer class, automaton state, return code).")
-PROBES = ["op_active_refused", "not_initialized_before", "not_initialized_after_done", "not_initialized_after_error", "foreign_continuation", "size_query", "too_small", "retry_exact_ok", "length_bounds_checked", "canary_checked",
+PROBES = ["failed_on_damaged_input", "op_active_refused", "not_initialized_before", "not_initialized_after_done", "not_initialized_after_error", "foreign_continuation", "size_query", "too_small", "retry_exact_ok", "length_bounds_checked", "canary_checked",
           "multipart_equals_single", "first_op_survives_foreign_init", "two_sessions_interleaved", "verify_ok", "decrypt_roundtrip"]
 DEATH_IS_VIOLATION = ()
 
@@ -122,6 +122,15 @@ def episode(g, r, e, s, sref, fam, name, kk, mech, bs, shape, multi, keys):
         ops.append({"_s": sref, "ep": e, "f": "C_SignInit", "s": sref, "mech": mech, "key": keyfor("sign", kk, keys), "ref": True})
         ops.append({"_s": sref, "ep": e, "f": "C_Sign", "s": sref, "in": data.hex(), "outcap": 600, "save": src_name, "ref": True})
     ops_ref_first = list(ops); ops = []
+    # ---- perturbation: the ciphertext / signature handed to the operation under test is damaged (cut short, or one bit flipped): whatever the terminal
+    # call answers, an operation that FAILED is gone afterwards (statement: "an operation that finished or failed is gone")
+    damage = {}
+    if fam in ("dec", "verify") and r.random() < 0.3:
+        x = r.random()
+        if x < 0.6: damage["trunc"] = r.choice([0, 1, 5, 12, 15, 16, 17, 31, 32])
+        if x >= 0.4: damage["flip"] = r.randrange(8 * 4096)
+    def SRC(**kw):
+        d = {"from": src_name}; d.update(damage); d.update(kw); return d
     initop = {"f": fi, "s": s, "mech": mech, "role": "init"}
     if key: initop["key"] = key
     use_multi = multi and r.random() < 0.65
@@ -163,7 +172,7 @@ def episode(g, r, e, s, sref, fam, name, kk, mech, bs, shape, multi, keys):
             o2 = 0
             for i, sz in enumerate(sizes):
                 last = i == len(sizes) - 1
-                chunks.append({"from": src_name, "off": o2, **({} if last else {"n": sz})}); o2 += sz
+                chunks.append(SRC(off=o2, **({} if last else {"n": sz}))); o2 += sz
         else:
             while off < n or not chunks:
                 sz = r.choice([0, 1, 15, 16, 17, 32, 33]) if n else 0
@@ -175,20 +184,21 @@ def episode(g, r, e, s, sref, fam, name, kk, mech, bs, shape, multi, keys):
             op = {"f": fu, "s": s, "in": ch, "role": "update"}
             if fam in ("enc", "dec"): op["outcap"] = 400; op["append"] = outname
             with_probe(op, "l%d_%d" % (e, i))
-        if fam == "verify": E({"f": ff, "s": s, "sig": {"from": src_name}, "role": "final"})
+        if fam == "verify": E({"f": ff, "s": s, "sig": SRC(), "role": "final"})
         else:
             op = {"f": ff, "s": s, "outcap": 700, "role": "final"}
             if fam in ("enc", "dec"): op["append"] = outname
             else: op["save"] = outname
             with_probe(op, "lf%d" % e)
     else:
-        if fam == "verify": E({"f": fs, "s": s, "in": data.hex(), "sig": {"from": src_name}, "role": "single"})
+        if fam == "verify": E({"f": fs, "s": s, "in": data.hex(), "sig": SRC(), "role": "single"})
         else:
-            op = {"f": fs, "s": s, "in": data.hex() if fam != "dec" else {"from": src_name}, "outcap": 700, "role": "single", "save": outname}
+            op = {"f": fs, "s": s, "in": data.hex() if fam != "dec" else SRC(), "outcap": 700, "role": "single", "save": outname}
             with_probe(op, "ls%d" % e)
     # ---- continuation after completion
-    if r.random() < 0.5:
+    if r.random() < 0.5 or damage:
         E(cont_op(r, fam, s, data, src_name, "after"))
+        if damage and r.random() < 0.5: E(cont_op(r, fam, s, data, src_name, "after"))
     # reference single-part computation of the same bytes (deterministic mechanisms)
     refops = []
     if fam in ("enc", "sign", "digest") and shape not in ("asym_rand",):
@@ -196,7 +206,9 @@ def episode(g, r, e, s, sref, fam, name, kk, mech, bs, shape, multi, keys):
         if key: io["key"] = key
         refops.append(io)
         refops.append({"_s": sref, "ep": e, "f": fs, "s": sref, "in": data.hex(), "outcap": n + 700, "ref": True, "refresult": True})
-    for op in ops: op.setdefault("fam", fam); op["mechname"] = name; op.setdefault("plain", data.hex())
+    for op in ops:
+        op.setdefault("fam", fam); op["mechname"] = name; op.setdefault("plain", data.hex())
+        if damage: op["damaged"] = True
     return ops_ref_first, ops, refops
 
 def cont_op(r, fam, s, data, src_name, why):
@@ -326,6 +338,7 @@ def check(plan, r):
                 active.pop(s, None); lastdone[s] = "done"
         else:
             active.pop(s, None); lastdone[s] = "error"
+            if getattr(a, "damaged", False): st("failed_on_damaged_input")
             if a.fam == "verify" and role in ("final", "single") and not a.perturbed:
                 viols.append(_v("C12.result_wrong", "verification of a signature made by the same token with the same key and data failed with %s%s" % (K.rvname(rv), " after a refused foreign *Init" if a.survived_foreign else ""), call=f, op=k, mech=a.mech))
     # ---- completed results equal the single-part result of the same bytes
@@ -351,7 +364,9 @@ def new_act(op, fam, table):
     m = table.get(op.get("mechname"))
     if m is None: return Act(fam, op.get("mechname", "?"), 16, 0, None, "?")
     name, fams, kk, mech, bs, shape, tag, multi, fixed = m
-    return Act(fam, name, bs, tag, fixed, shape)
+    a = Act(fam, name, bs, tag, fixed, shape)
+    if op.get("damaged"): a.perturbed = True; a.damaged = True     # results of an operation fed with damaged input are not compared (C10's business); its life cycle is
+    return a
 
 def cover(plan, r):
     cov, stats = r.aux.get("c12", (set(), {}))
